@@ -1541,3 +1541,24 @@ def c08_n11(ctx):
                 yield bad("C08-N11", key, at(f, t["span"]["line"]), "%s arms the NAK timer on a path where the procedure may be Deferred and no EOF has been received: when it expires the receiver queues and sends a NAK that nobody solicited" % f.name)
     if n == 0:
         raise Anchor("C08-N11", "restart_nak / reset_nak in the receiver")
+
+
+# ================================================================ C07-S11: who may move the first-pass cursor
+@rule("C07", "C07-S11", 1, "the file checksum - which rewinds the source file and reads it to the end - is computed only where the EOF is prepared (the first pass is over or abandoned there): anywhere else it would leave the first-pass cursor at the end of the file and the rest of the file would never be sent", also=("C19", "C01"))
+def c07_s11(ctx):
+    fns = impl_fns(ctx, SEND)
+    n = 0
+    for f in fns:
+        for b, t in f.all_calls():
+            d, r, _ = ctx.prog.callee_of(t)
+            cal = r or d or ""
+            if not (cal.endswith("SendTransaction::get_checksum") or (cal.endswith("FileChecksum>::checksum") or cal.endswith("FileChecksum::checksum")) and f.name != "get_checksum"):
+                continue
+            n += 1
+            key = "SendTransaction::%s->%s" % (f.name, cal.split("::")[-1]) + ("#%d" % n if n > 1 else "")
+            if f.name == "prepare_eof":
+                yield ok("C07-S11", key, at(f, t["span"]["line"]), "checksum computed where the EOF is prepared")
+            else:
+                yield bad("C07-S11", key, at(f, t["span"]["line"]), "%s computes the file checksum: the source file is read to its end and the first-pass cursor stays there - what the sender transmits next is an empty segment at the end of the file instead of the data that follows" % f.name)
+    if n == 0:
+        raise Anchor("C07-S11", "calls of SendTransaction::get_checksum")
